@@ -5,7 +5,7 @@ written in the template's own encoding, which Python cannot import."""
 import os, tempfile
 from mako.template import Template
 
-d = tempfile.mkdtemp(dir="/tmp/hunt_c15_out")
+d = tempfile.mkdtemp()
 src = os.path.join(d, "t.html"); mods = os.path.join(d, "mods")
 open(src, "wb").write("hello ${x}".encode("utf-16"))
 
